@@ -3,6 +3,8 @@ mode and converts precision to scale through checked arithmetic only (R-PANIC on
 import re
 from rules import prov, provrules as R, signsticky as S
 from rules.panic_clause import panic_clause
+from rules import scale
+from props import exact
 
 
 def run(ctx):
@@ -27,6 +29,18 @@ def run(ctx):
     n2 = R.mode_pair_honoured(rep, F, E, wpr)
     n3 = S.no_resign_after_rounding(rep, F, E, fns + wpr)
     rep.floor('PROV-CTX final sinks', n1 + n2, 5)
+    # the two-operand sum hands the EXACT sum a + b to the rounding routine on every path
+    exact.prepare(F)
+    for f in fns:
+        if f.name.endswith('add_refs_into'):
+            v, msgs, paths = scale.analyse(f, 'rounded-add', arg_offset=1)
+            key = f.key + ':rounds-the-exact-sum'
+            if v == 'ok' and getattr(scale.analyse.last, 'rounded_ok', 0) > 0:
+                rep.ok('R-SCALE', key, 'on all %d paths the value handed to with_precision_round is a + b (dimension typing, arbitrary scales)' % paths, f.where())
+            elif v == 'violation':
+                rep.violation('R-SCALE', key, msgs[0][:400], f.where())
+            else:
+                rep.undecided('R-SCALE', key, (msgs or ['no rounding call reached'])[0][:200], f.where())
     # own-body panic discipline of with_precision_round
     Fd = ctx.facts('default', 'dbg')
     bodies = []
